@@ -25,7 +25,8 @@ func (c17) Info() core.Info {
 			"(corpus, grammar, mutation; W-small L<=4). Domain (b): GoogleSafeBrowsing and Semantic on the ordinary-web-URL grammar of the property (http/https/ftp/ws/wss; LDH labels or an " +
 			"IPv4/IPv6 literal in any spelling; optional unreserved credentials and port; segments, query names/values, fragment over A-Za-z0-9-._~ written literally or percent-encoded to " +
 			"depth 0-3 in either hex case; dot segments only as separate singly-encoded insertions; tabs/newlines, surrounding whitespace). " +
-			"Non-trivial: the first canonicalization succeeded (so the second one was compared); distinct by (profile, input).",
+			"Encodings are applied in layers (any character of the previous layer's text, also '%' and hex digits of escapes). For a third of the cases other parser values, or the same profile with the same raw host text in a non-special URL, " +
+			"run first (caches keyed too narrowly). Non-trivial: the first canonicalization succeeded (so the second one was compared); distinct by (profile, input).",
 		Assumptions: []string{"outside domain (b) the experimental profiles are known not to be idempotent (stated in the property)"},
 		MinDistinct: map[string]int{"quick": 100000, "thorough": 1000000},
 	}
